@@ -18,8 +18,10 @@
 
   User callbacks: the predicate of `retain` is an ORACLE, a list of outcomes consumed in call order.
 
-  `fixedC09a` (parameter of `splitOff`): `false` = the code as it is (finding C09-a: the
-  `start == end` early return precedes the boundary assertions); `true` = the repaired order.
+  `fixedC09a` (parameter of `splitOff`): `true` = the code after fix 17be2d2 (boundary assertions
+  before the `start == end` early return); `false` = the order before the fix (finding C09-a).
+  `Alloc` (parameter of the growing operations): fixed capacity / exact growth (`BumpString`) /
+  growth to an arena-decided grant (`MutBumpString`).
 -/
 import BumpProof.Str.Utf8
 
@@ -100,19 +102,83 @@ def sliceRange (sb eb : Bound) (len : Nat) : Option (Nat × Nat) :=
   | some s, some e => if s > e then none else if e > len then none else some (s, e)
   | _, _ => none
 
-/-! ## capacity: `FixedBumpVec::generic_reserve` / `BumpVec::generic_reserve` for `u8` -/
+/-! ## capacity: `generic_reserve` / `generic_grow_amortized` / `generic_grow_exact` / `generic_grow_to`
+   of `FixedBumpVec<u8>` (fixed_bump_vec.rs l.1629), `BumpVec<u8>` (bump_vec.rs l.1909, 2665, 2715, 2732)
+   and `MutBumpVec<u8>` (mut_bump_vec.rs l.1766, 2199, 2219, 2236) -/
 
-/-- `generic_reserve(additional)`: nothing to do when `additional ≤ capacity - len`; a fixed
-    string fails otherwise, a growable one gets a larger allocation (contents preserved; the new
-    spare bytes are arbitrary, modelled as 0) -/
-def reserve (fixed : Bool) (s : State) (additional : Nat) : Option State :=
+/-- where the memory of a string comes from -/
+inductive Alloc where
+  /-- `FixedBumpString` / `BumpBox<str>`: cannot grow (`generic_reserve` fails when the room is insufficient) -/
+  | fixed
+  /-- `BumpString`: `generic_grow_to(new_cap)` = `allocator.grow` (or `allocate` when the capacity is 0)
+      to exactly `new_cap` bytes -/
+  | exact
+  /-- `MutBumpString`: `grow_prepared_allocation(new_cap)` hands out the rest of the chunk that can
+      hold `new_cap` bytes: `grant` bytes.  The grant is an INPUT (it is decided by the arena);
+      the arena contract is `grant ≥ new_cap`, the model uses `max grant new_cap`. -/
+  | atLeast (grant : Nat)
+  deriving Repr, DecidableEq
+
+def Alloc.isFixed : Alloc → Bool
+  | .fixed => true
+  | _ => false
+
+/-- `min_non_zero_cap(size_of::<u8>())` (lib.rs l.544) -/
+def minNonZeroCap : Nat := 8
+
+/-- `generic_grow_amortized`: `new_cap = max(cap * 2, required_cap).max(min_non_zero_cap(1))` -/
+def amortizedCap (cap required : Nat) : Nat := max (max (cap * 2) required) minNonZeroCap
+
+/-- `generic_grow_to(new_cap)`: the contents are preserved; the new spare bytes are arbitrary (modelled as 0) -/
+def growTo (a : Alloc) (s : State) (newCap : Nat) : Option State :=
+  match a with
+  | .fixed => none
+  | .exact => some { s with buf := s.buf ++ List.replicate (newCap - s.buf.length) 0 }
+  | .atLeast g => some { s with buf := s.buf ++ List.replicate (max g newCap - s.buf.length) 0 }
+
+/-- `generic_reserve(additional)`: nothing happens (no reallocation) when
+    `additional ≤ capacity - len`; otherwise a fixed string fails and a growable one grows amortized.
+    (`len + additional` overflowing `usize` is a capacity-overflow error in the code; lengths that
+    large cannot exist, `Layout` bounds them by `isize::MAX` — not modelled.) -/
+def reserve (a : Alloc) (s : State) (additional : Nat) : Option State :=
   if additional ≤ s.buf.length - s.len then some s
-  else if fixed then none
-  else some { s with buf := s.buf ++ List.replicate (s.len + additional - s.buf.length) 0 }
+  else growTo a s (amortizedCap s.buf.length (s.len + additional))
+
+/-- `generic_reserve_exact(additional)`: grows to exactly `len + additional` -/
+def reserveExact (a : Alloc) (s : State) (additional : Nat) : Option State :=
+  if additional ≤ s.buf.length - s.len then some s
+  else growTo a s (s.len + additional)
+
+/-- `reserve(additional)` / `try_reserve` as an operation -/
+def reserveOp (a : Alloc) (s : State) (additional : Nat) : Res Unit :=
+  match reserve a s additional with
+  | none => .err s
+  | some s' => .ok () s'
+
+/-- `reserve_exact(additional)` as an operation -/
+def reserveExactOp (a : Alloc) (s : State) (additional : Nat) : Res Unit :=
+  match reserveExact a s additional with
+  | none => .err s
+  | some s' => .ok () s'
+
+/-- `generic_with_capacity_in(capacity)` (bump_string.rs l.799, mut_bump_string.rs l.239,
+    fixed_bump_string.rs l.183): an empty string; capacity 0 allocates nothing; a `BumpString` /
+    `FixedBumpString` gets exactly `capacity` bytes, a `MutBumpString` the grant -/
+def withCapacity (a : Alloc) (capacity : Nat) : State :=
+  if capacity = 0 then { buf := [], len := 0 }
+  else match a with
+    | .atLeast g => { buf := List.replicate (max g capacity) 0, len := 0 }
+    | _ => { buf := List.replicate capacity 0, len := 0 }
+
+/-- `generic_from_str_in(text)` (bump_string.rs l.851, mut_bump_string.rs l.789):
+    `with_capacity(text.len())`, copy, `set_len` -/
+def fromStr (a : Alloc) (text : Bytes) : State :=
+  let s := withCapacity a text.length
+  { buf := text ++ s.buf.drop text.length, len := text.length }
 
 /-- `generic_extend_from_slice_copy(bytes)` (and `generic_push(byte)`): reserve, copy to `len`, `len += n` -/
-def appendBytes (fixed : Bool) (s : State) (data : Bytes) : Res Unit :=
-  match reserve fixed s data.length with
+def appendBytes (a : Alloc) (s : State) (data : Bytes) : Res Unit :=
+  match reserve a s data.length with
   | none => .err s
   | some s1 =>
     match writeAt s1.buf s1.len data with
@@ -121,21 +187,21 @@ def appendBytes (fixed : Bool) (s : State) (data : Bytes) : Res Unit :=
 
 /-- `{Fixed,Mut,}BumpString::generic_push` (bump_string.rs l.1186, fixed_bump_string.rs l.919,
     mut_bump_string.rs): `match ch.len_utf8() { 1 => vec.push(ch as u8), _ => vec.extend_from_slice_copy(encode_utf8) }` -/
-def push (fixed : Bool) (s : State) (ch : Char) : Res Unit :=
-  if ch.utf8Size = 1 then appendBytes fixed s [UInt8.ofNat ch.toNat]
-  else appendBytes fixed s (encodeChar ch)
+def push (a : Alloc) (s : State) (ch : Char) : Res Unit :=
+  if ch.utf8Size = 1 then appendBytes a s [UInt8.ofNat ch.toNat]
+  else appendBytes a s (encodeChar ch)
 
 /-- `generic_push_str` -/
-def pushStr (fixed : Bool) (s : State) (str : Bytes) : Res Unit :=
-  appendBytes fixed s str
+def pushStr (a : Alloc) (s : State) (str : Bytes) : Res Unit :=
+  appendBytes a s str
 
 /-- `assert_char_boundary` (bump_box.rs l.~590): `if !self.is_char_boundary(index) { panic }` -/
 def boundaryOk (s : State) (i : Nat) : Bool := isCharBoundary s.bytes i
 
 /-- `insert_bytes` (bump_string.rs l.1823, fixed_bump_string.rs l.1386, mut_bump_string.rs l.606):
     reserve(amt); copy(idx → idx+amt, len-idx); copy_nonoverlapping(bytes → idx); set_len(len+amt) -/
-def insertBytes (fixed : Bool) (s : State) (idx : Nat) (data : Bytes) : Res Unit :=
-  match reserve fixed s data.length with
+def insertBytes (a : Alloc) (s : State) (idx : Nat) (data : Bytes) : Res Unit :=
+  match reserve a s data.length with
   | none => .err s
   | some s1 =>
     match copyWithin s1.buf idx (idx + data.length) (s1.len - idx) with
@@ -146,14 +212,14 @@ def insertBytes (fixed : Bool) (s : State) (idx : Nat) (data : Bytes) : Res Unit
       | some b2 => .ok () { buf := b2, len := s1.len + data.length }
 
 /-- `generic_insert`: assert_char_boundary(idx); insert_bytes(idx, encode_utf8(ch)) -/
-def insert (fixed : Bool) (s : State) (idx : Nat) (ch : Char) : Res Unit :=
+def insert (a : Alloc) (s : State) (idx : Nat) (ch : Char) : Res Unit :=
   if !boundaryOk s idx then .panic s
-  else insertBytes fixed s idx (encodeChar ch)
+  else insertBytes a s idx (encodeChar ch)
 
 /-- `generic_insert_str`: assert_char_boundary(idx); insert_bytes(idx, string) -/
-def insertStr (fixed : Bool) (s : State) (idx : Nat) (str : Bytes) : Res Unit :=
+def insertStr (a : Alloc) (s : State) (idx : Nat) (str : Bytes) : Res Unit :=
   if !boundaryOk s idx then .panic s
-  else insertBytes fixed s idx str
+  else insertBytes a s idx str
 
 /-- `BumpBox<str>::pop` (bump_box.rs): `let ch = self.chars().next_back()?; set_len(len - ch.len_utf8())` -/
 def pop (s : State) : Res (Option Char) :=
@@ -268,7 +334,7 @@ def drain (s : State) (sb eb : Bound) (takeFront : Nat) : Res (List Char) :=
 /-! ### replace_range, extend_from_within -/
 
 /-- `generic_replace_range` (bump_string.rs l.1565, fixed_bump_string.rs l.1313, mut_bump_string.rs l.526) -/
-def replaceRange (fixed : Bool) (s : State) (sb eb : Bound) (str : Bytes) : Res Unit :=
+def replaceRange (a : Alloc) (s : State) (sb eb : Bound) (str : Bytes) : Res Unit :=
   match sliceRange sb eb s.len with
   | none => .panic s
   | some (start, end_) =>
@@ -278,7 +344,7 @@ def replaceRange (fixed : Bool) (s : State) (sb eb : Bound) (str : Bytes) : Res 
       let rangeLen := end_ - start
       let givenLen := str.length
       let additional := givenLen - rangeLen                    -- saturating_sub
-      match reserve fixed s additional with
+      match reserve a s additional with
       | none => .err s
       | some s1 =>
         -- move the tail
@@ -297,7 +363,7 @@ def replaceRange (fixed : Bool) (s : State) (sb eb : Bound) (str : Bytes) : Res 
 
 /-- `generic_extend_from_within` (bump_string.rs l.1438 …): range; assert(start); assert(end);
     `vec.generic_extend_from_within_copy(range)`: reserve(count); copy_nonoverlapping(start → len, count); len += count -/
-def extendFromWithin (fixed : Bool) (s : State) (sb eb : Bound) : Res Unit :=
+def extendFromWithin (a : Alloc) (s : State) (sb eb : Bound) : Res Unit :=
   match sliceRange sb eb s.len with
   | none => .panic s
   | some (start, end_) =>
@@ -305,7 +371,7 @@ def extendFromWithin (fixed : Bool) (s : State) (sb eb : Bound) : Res Unit :=
     else if !boundaryOk s end_ then .panic s
     else
       let count := end_ - start
-      match reserve fixed s count with
+      match reserve a s count with
       | none => .err s
       | some s1 =>
         match copyWithin s1.buf start s1.len count with
@@ -370,13 +436,13 @@ def nulPos : Bytes → Option Nat
 /-- `{,Mut}BumpString::generic_into_cstr` (bump_string.rs l.2003, mut_bump_string.rs l.680):
     `match position(NUL) { Some(nul) => as_mut_vec().truncate(nul + 1), None => generic_push('\0')? }`;
     the result is the bytes of the string (with the NUL) -/
-def intoCstr (fixed : Bool) (s : State) : Res Bytes :=
+def intoCstr (a : Alloc) (s : State) : Res Bytes :=
   match nulPos s.bytes with
   | some nul =>
     let s' : State := if nul + 1 ≤ s.len then { s with len := nul + 1 } else s
     .ok s'.bytes s'
   | none =>
-    match push fixed s (Char.ofNat 0) with
+    match push a s (Char.ofNat 0) with
     | .ok () s' => .ok s'.bytes s'
     | .err s' => .err s'
     | .panic s' => .panic s'
@@ -402,13 +468,59 @@ def allocCstrFmt (asStr : Option Bytes) (pieces : List Bytes) : Res Bytes :=
     let rec go (s : State) : List Bytes → Res Unit
       | [] => .ok () s
       | p :: ps =>
-        match pushStr false s p with
+        match pushStr .exact s p with
         | .ok () s' => go s' ps
         | r => r
     match go (State.ofBytes []) pieces with
-    | .ok () s => intoCstr false s
+    | .ok () s => intoCstr .exact s
     | .err s => .err s
     | .panic s => .panic s
     | .fault => .fault
+
+/-! ## checked constructors -/
+
+/-- `BumpBox<str>::from_utf8` (bump_box.rs l.~521; `FixedBumpString::from_utf8`,
+    `BumpString::from_utf8`, `MutBumpString::from_utf8` do the same on their byte vector):
+    `match str::from_utf8(bytes) { Ok(_) => Ok(transmute(bytes)), Err(e) => Err(FromUtf8Error::new(e, bytes)) }`.
+    The byte vector `v` (allocation + length) is reinterpreted UNCHANGED when it is valid UTF-8 and
+    handed back otherwise (`none`).  `str::from_utf8` is core; its accept/reject decision is the
+    decoder `validUtf8` (tied to rustc by the correspondence run). -/
+def fromUtf8 (v : State) : Option State :=
+  if validUtf8 v.bytes then some v else none
+
+/-- `char::decode_utf16` (core `DecodeUtf16::next`): a non-surrogate unit is a character; a
+    trailing surrogate (≥ 0xDC00) is an error; a leading surrogate needs a trailing one right after
+    it (otherwise an error, and the next unit is looked at again);
+    `c = (((u & 0x3ff) << 10) | (u2 & 0x3ff)) + 0x10000`.  `none` = `Err(DecodeUtf16Error)`. -/
+def decodeUtf16 : List UInt16 → List (Option Char)
+  | [] => []
+  | [u] =>
+    if ¬ (0xD800 ≤ u.toNat ∧ u.toNat ≤ 0xDFFF) then [some (Char.ofNat u.toNat)] else [none]
+  | u :: u2 :: r2 =>
+    if ¬ (0xD800 ≤ u.toNat ∧ u.toNat ≤ 0xDFFF) then some (Char.ofNat u.toNat) :: decodeUtf16 (u2 :: r2)
+    else if 0xDC00 ≤ u.toNat then none :: decodeUtf16 (u2 :: r2)
+    else if u2.toNat < 0xDC00 ∨ 0xDFFF < u2.toNat then none :: decodeUtf16 (u2 :: r2)
+    else some (Char.ofNat ((u.toNat % 1024) * 1024 + u2.toNat % 1024 + 0x10000)) :: decodeUtf16 r2
+
+/-- the push loop of `generic_from_utf16_in`: `Ok(c) => push(c)?`, `Err => return Err(FromUtf16Error)`
+    (`none`) -/
+def pushDecoded (a : Alloc) (s : State) : List (Option Char) → Option (Res Unit)
+  | [] => some (.ok () s)
+  | none :: _ => none
+  | some c :: r =>
+    match push a s c with
+    | .ok () s' => pushDecoded a s' r
+    | other => some other
+
+/-- `generic_from_utf16_in` (bump_string.rs l.1055, mut_bump_string.rs l.333):
+    `with_capacity(v.len())`, then push every decoded character; the first decoding error aborts
+    with `FromUtf16Error` (`none`) -/
+def fromUtf16 (a : Alloc) (v : List UInt16) : Option (Res Unit) :=
+  pushDecoded a (withCapacity a v.length) (decodeUtf16 v)
+
+/-- `generic_from_utf16_lossy_in` (l.1127): capacity `size_hint().0` (= ⌈len/2⌉), every error becomes U+FFFD -/
+def fromUtf16Lossy (a : Alloc) (v : List UInt16) : Option (Res Unit) :=
+  pushDecoded a (withCapacity a ((v.length + 1) / 2))
+    ((decodeUtf16 v).map fun o => some (o.getD (Char.ofNat 0xFFFD)))
 
 end Str
